@@ -32,7 +32,9 @@ def balanced_ranges(lines):
 
 
 def _ref_for(rng, k, includer_url):
-    name = "frag%d.conf" % k
+    # (a resource is what its content says, whatever its name ends in)
+    name = "frag%d%s" % (k, rng.choice([".conf"] * 9 + [
+        ".conf.gz", ".gz", ".bz2", ".zip", ".xml", ""]))
     r = rng.random()
     if r < 0.25:
         return name
